@@ -23,7 +23,7 @@ func init() {
 		if err := json.Unmarshal(raw, &c); err != nil {
 			return "bad case"
 		}
-		trees := c07Trees(c.Tier == "quick", c.Blocksize)
+		trees := c07Trees(c.Tier == "quick" || c.Blocksize != 4096, c.Blocksize)
 		if c.Tree < 0 || c.Tree >= len(trees) {
 			return "tree index out of range"
 		}
@@ -168,6 +168,14 @@ func c07Trees(quick bool, blk int64) []*treeSpec {
 	copy(sp, "head")
 	copy(sp[5*b:], "tail-after-hole")
 	trees = append(trees, &treeSpec{Files: map[string][]byte{"sparse.bin": sp, "empty": nil}, Dirs: []string{"emptydir"}})
+	if blk >= 131072 {
+		// 40 files of about 3000 bytes: more than 64 KiB of tails in ONE fragment block
+		tails := &treeSpec{Files: map[string][]byte{"one-block.bin": randomBytes(801, int(blk)), "small.txt": sqContent("tails-small", 17)}}
+		for i := 0; i < 40; i++ {
+			tails.Files[fmt.Sprintf("tail-%02d.bin", i)] = randomBytes(uint64(810+i), 3000+i)
+		}
+		trees = append(trees, tails)
+	}
 	return trees
 }
 
@@ -411,6 +419,18 @@ func C07(r *ev.Run) {
 					}
 				}
 			}
+		}
+	}
+	// many tails in ONE large fragment block (the last tree of the list for block sizes of 128 KiB and more)
+	for _, bs := range []int64{131072, 1 << 20} {
+		if r.Quick() && bs != 131072 {
+			continue
+		}
+		if treesBy[bs] == nil {
+			treesBy[bs] = c07Trees(true, bs)
+		}
+		for _, comp := range []string{"default", "gzip9"} {
+			cases = append(cases, sqCase{Tree: len(treesBy[bs]) - 1, Tier: r.Tier, Comp: comp, Blocksize: bs, Cache: -1})
 		}
 	}
 	outcomes := newDistinct()
